@@ -12,13 +12,14 @@ vars == <<row>>
 Results == {"R0", "R1", "R2"}
 \* (TX: a typed error whose type has the same underlying representation as TV's - a different type all the same)
 Leaves == {Leaf("E1"), Leaf("E2"), Leaf("E3"), Leaf("TV"), Leaf("TP"), Leaf("TX")}
-Grow(S) == S \cup {Wrap("W", x) : x \in S} \cup {Wrap("WT", x) : x \in S} \cup {Join(x, y) : x \in S, y \in S}
+\* (JN(x): a hand-written multi-error whose Unwrap() []error is [nil, x])
+Grow(S) == S \cup {Wrap("W", x) : x \in S} \cup {Wrap("WT", x) : x \in S} \cup {Wrap("JN", x) : x \in S} \cup {Join(x, y) : x \in S, y \in S}
 RECURSIVE TermsUpTo(_)
 TermsUpTo(d) == IF d = 0 THEN Leaves ELSE Grow(TermsUpTo(d - 1))
 \* depth 2 is restricted to wrappers over depth-1 terms and joins with a leaf on one side (keeps the table finite and useful)
 Terms == IF TermDepth <= 1 THEN TermsUpTo(TermDepth)
          ELSE LET T1 == TermsUpTo(1) IN
-              T1 \cup {Wrap("W", x) : x \in T1} \cup {Wrap("WT", x) : x \in T1}
+              T1 \cup {Wrap("W", x) : x \in T1} \cup {Wrap("WT", x) : x \in T1} \cup {Wrap("JN", x) : x \in Leaves}
                  \cup {Join(x, y) : x \in T1, y \in Leaves} \cup {Join(y, x) : x \in T1, y \in Leaves}
 Errors == {Nil} \cup Terms
 
